@@ -33,7 +33,7 @@ CLAIMS = {
   technique="Lean 4 naturality proofs about a hand-written executable model + differential value lattice across backends"),
  "C11": dict(category="proof", design="4/C11",
   text="112 Lean theorems: commutativity/associativity of add, subtract inverts add, scale distributes and composes, negation = scale -1, dot symmetric/bilinear (Euclidean 2D/3D, Minkowski 4D), "
-       "v.v = rho2/mag2/tau2, cross antisymmetric/bilinear/orthogonal, Lagrange identity, unit has norm one and is parallel - for ALL coordinate-system combinations at once, as corollaries of "
+       "v.v = rho2/mag2/tau2, cross antisymmetric/bilinear/orthogonal, Lagrange identity, scalar triple product cyclic and alternating, BAC-CAB, Jacobi identity, Cauchy-Schwarz (Props/C11Triple.lean, 10 theorems), unit has norm one and is parallel - for ALL coordinate-system combinations at once, as corollaries of "
        "the refinement theorems over the regenerated model. abs/**/@ routing: glue model + symbolic correspondence (C05). METHOD LEVEL (Props/MethodBin.lean, 68 theorems): the public calls add/subtract/dot/cross/scale/unit and the operators, as modelled by the glue on top of the regenerated real layer, denote the sum/difference/products of the operands' denotations for every well-formed operand in every storage pairing, with result dimension, flavor, backend; dimension guards for all operands. "
        "FUNCTION FORMS (Props/UfuncDenote.lean): numpy.add / subtract / matmul / multiply / true_divide / negative / absolute / square denote the same sums, products, multiples and norms in every storage pairing and backend (routing theorems of C05 composed with the method-level theorems).",
   note=TB + "tau-stored vectors scaled by a negative factor are outside the representable domain (partial theorems say so).",
